@@ -177,7 +177,7 @@ func (e *Env) Environ() []string {
 		"PATH=" + bin + ":" + BinDir + ":/usr/local/bin:/usr/bin:/bin",
 	}
 	if e.Race {
-		env = append(env, "GORACE=halt_on_error=0 log_path="+filepath.Join(e.Root, "race.log"))
+		env = append(env, "GORACE=halt_on_error=0 exitcode=0 log_path="+filepath.Join(e.Root, "race.log"))
 	}
 	for _, x := range e.Extra {
 		if x != "VERIF_SBX_NOFILTERS=1" && x != "VERIF_SBX_ONESHOT=1" {
